@@ -270,6 +270,7 @@ fn cmd_gen(args: &[String]) {
             "validation_default_all": v.capabilities == wgsl_to_wgpu::WgslCapabilities::all()})).unwrap();
     }
     let mut n = 0u64;
+    let mut reuse_buf = String::with_capacity(8 << 20);
     for line in input.lines() {
         let line = line.unwrap();
         if line.trim().is_empty() {
@@ -368,7 +369,25 @@ fn cmd_gen(args: &[String]) {
                 }
             }
         }
-        let oc = call_generator(&src, &case.opts, detail, budget);
+        let sigchld_ignored = case.fmt_plan.as_deref() == Some("ok_sigchld_ignored");
+        if sigchld_ignored {
+            // the calling process ignores SIGCHLD: its children are reaped by the kernel and `wait` fails with ECHILD
+            unsafe { libc::signal(libc::SIGCHLD, libc::SIG_IGN) };
+        }
+        reuse_buf.clear();
+        reuse_buf.push_str(&src);
+        let env_before: Vec<(std::ffi::OsString, std::ffi::OsString)> = std::env::vars_os().collect();
+        let oc = call_generator(&reuse_buf, &case.opts, detail, budget);
+        let env_after: Vec<(std::ffi::OsString, std::ffi::OsString)> = std::env::vars_os().collect();
+        let env_changed: Vec<String> = env_before
+            .iter()
+            .filter(|kv| !env_after.contains(kv))
+            .chain(env_after.iter().filter(|kv| !env_before.contains(kv)))
+            .map(|(k, _)| k.to_string_lossy().to_string())
+            .collect();
+        if sigchld_ignored {
+            unsafe { libc::signal(libc::SIGCHLD, libc::SIG_DFL) };
+        }
         for (k, v) in saved_env {
             match v {
                 Some(v) => std::env::set_var(&k, v),
@@ -404,6 +423,9 @@ fn cmd_gen(args: &[String]) {
         obs.insert("id".into(), json!(case.id));
         if zombie {
             obs.insert("zombie".into(), json!(true));
+        }
+        if !env_changed.is_empty() {
+            obs.insert("env_changed".into(), json!(env_changed));
         }
         obs.insert("ret".into(), oc.ret.clone());
         obs.insert("work".into(), json!(oc.work.to_vec()));
